@@ -184,6 +184,13 @@ def r2_setfh_order(L, repo, force_shape=False):
                ["SETFH", "0", "0", "7", "8"],
                ["SETFH", "63", "5", "900", "945", "880", "925", "1", "2", "890", "935"],
                ["SETFH", "17", "63", "1000", "955", "0", "45", "10", "55"]]
+        # the longest Mobile Allocation (64 channels) and one just past half of it: 33 and 64 <RXF> <TXF> pairs
+        for npairs in (33, 64):
+            w_ = ["SETFH", "5", "1"]
+            for k in range(npairs):
+                ch_ = (k * 37) % 124 + 1          # non-monotone ARFCN order
+                w_ += [str(935000 + 200 * ch_), str(890000 + 200 * ch_)]
+            wit.append(w_)
         for w in wit:
             f = fold_parse_cmd(repo, w)
             raw = [(int(w[i]) * 1000, int(w[i + 1]) * 1000) for i in range(3, len(w) - 1, 2)]
@@ -191,7 +198,8 @@ def r2_setfh_order(L, repo, force_shape=False):
             got = [(c_[0], (c_[1][0], c_[1][1], [tuple(p_) for p_ in c_[1][2]]) if len(c_[1]) == 3 else c_[1])
                    for c_ in f.calls if c_[0] == "enable_fh"]
             L.ob("C02.R2", F0, "CTRLInterfaceTRX.parse_cmd",
-                 "CMD %s configures hopping with (HSN, MAIO, the received <RXFn> <TXFn> pairs in Hz, in the received order)" % " ".join(w),
+                 "CMD %s configures hopping with (HSN, MAIO, the received <RXFn> <TXFn> pairs in Hz, in the received order)" % (
+                     " ".join(w) if len(w) < 16 else "SETFH %s %s <%d channel pairs>" % (w[1], w[2], (len(w) - 3) // 2)),
                  want, got, got == want and f.ret == 0, fd0.lineno)
         L.floor("C02.R2", "SETFH witness commands folded", len(wit), 4)
         L.structural("C02.R2 SETFH pairing by forward substitution of the handler's branch", r2_setfh_order, L, repo, True)
